@@ -132,6 +132,73 @@ def key_spelling_cases(rng, thorough=False):
                 yield ("blanks-in-key-ignored", inp, got, key.hex())
 
 
+def interleaved_cases(rng, rounds):
+    """Another caller's complete generate() between any two steps of this one (what a second thread scheduled at that point does): scratch
+    state shared through the module or the class would show as a token of the wrong time step.  The interleaving is forced, not hoped
+    for: a trace function runs the other call at every function entry and every line of passlib/totp.py reached by the first."""
+    import sys
+
+    from passlib.totp import TOTP
+
+    for _ in range(rounds):
+        alg = rng.choice(["sha1", "sha256", "sha512"])
+        key = rng.randbytes(rng.randrange(10, 33))
+        digits = rng.randrange(6, 9)
+        period = rng.choice([30, 30, 60, rng.randrange(1, 600)])
+        tm = rng.randrange(0, 1 << 36)
+        t = TOTP(key=key, format="raw", alg=alg, digits=digits, period=period)
+        other = TOTP(key=rng.randbytes(20), format="raw", alg=rng.choice(["sha1", "sha256", "sha512"]), digits=rng.randrange(6, 9), period=rng.choice([30, 45]))
+        t2 = rng.randrange(0, 1 << 36)
+        use_match = rng.random() < 0.3
+        busy = [False]
+        ran = [0]
+
+        def other_call():
+            if busy[0]:
+                return
+            busy[0] = True
+            try:
+                ran[0] += 1
+                other.generate(t2)
+            finally:
+                busy[0] = False
+
+        def local(frame, event, arg):
+            if event == "line" and not busy[0]:
+                other_call()
+            return local
+
+        def tracer(frame, event, arg):
+            if event != "call" or busy[0]:
+                return None
+            fn = frame.f_code.co_filename
+            if "/passlib/" not in fn:
+                return None
+            other_call()
+            return local if fn.endswith("totp.py") else None
+
+        want, _ = rfc_hotp(key, tm // period, alg, digits)
+        inp = {"op": "interleaved", "key": key.hex(), "alg": alg, "digits": digits, "period": period, "time": tm, "call": "match" if use_match else "generate"}
+        sys.settrace(tracer)
+        try:
+            if use_match:
+                try:
+                    m = t.match(want, tm, window=0)
+                    got = ("accepted", m.counter)
+                except Exception as e:  # noqa: BLE001
+                    got = (errname(e), None)
+                exp = ("accepted", tm // period)
+            else:
+                g = t.generate(tm)
+                got = (g.token, g.counter)
+                exp = (want, tm // period)
+        except Exception as e:  # noqa: BLE001
+            got, exp = (errname(e), None), (want, tm // period)
+        finally:
+            sys.settrace(None)
+        yield ("interleaved-callers", dict(inp, other_calls=ran[0]), got, exp)
+
+
 def correspond(ctx):
     import warnings
 
@@ -200,6 +267,8 @@ def correspond(ctx):
         o_sc.check(tag, got == exp, inp, got, exp)
     for tag, inp, got, exp in key_spelling_cases(rng, ctx.thorough):
         o_sc.check(tag, got == exp, inp, got, exp)
+    for tag, inp, got, exp in interleaved_cases(rng, 30 if not ctx.thorough else 600):
+        o_sc.check(tag, got == exp, inp, got, exp)
     # date-times, floats and the calendar under them: Model.TotpTime vs TOTP.normalize_time / calendar.timegm / datetime (both implementations)
     from . import c13_time
 
@@ -219,6 +288,9 @@ def search(ctx, broken, seeds):
         if got != exp:
             return {"input": inp, "observed": got, "expected": exp, "check": tag}
     for tag, inp, got, exp in key_spelling_cases(rng, ctx.thorough):
+        if got != exp:
+            return {"input": inp, "observed": got, "expected": exp, "check": tag}
+    for tag, inp, got, exp in interleaved_cases(rng, 40 if not ctx.thorough else 600):
         if got != exp:
             return {"input": inp, "observed": got, "expected": exp, "check": tag}
     for _ in range(20000 if not ctx.thorough else 300000):
